@@ -161,7 +161,11 @@ def run_full(ctx, edmap):
     rng = ctx.rng
     thorough = ctx.tier == "thorough"
     docs = ["Shapiro v. Thompson, 394 U. S. 618", "Foo v. Bar, 1 Chase 5, 2 Cooke 7 (1999)", "See 1 Bee 1; id. at 3.",
-            "Gilmer v. Deady, 3 Holmes 4, 5 U.S. 6"]
+            "Gilmer v. Deady, 3 Holmes 4, 5 U.S. 6", "Kern v. Thompson, 12 (1850)", "Jones v. Cooke, 7.", "See Smith v. Chase, 3; Bee, 4 (1801)."]
+    for _ in range(40 if thorough else 8):
+        # a nominative-reporter name used as a party name and NOT followed by a real citation (the match is kept)
+        docs.append(f"{rng.choice(textgen.NAMES)} v. {rng.choice(textgen.NOMINATIVE)}, {rng.choice([3, 7, 12, 40])}"
+                    + rng.choice([".", " (1850).", "; see id.", " and so on"]))
     for _ in range(400 if thorough else 60):
         docs.append(textgen.document(rng, hostile=rng.random() < 0.3,
                                      pool=textgen.NOMINATIVE + ["U.S.", "U. S.", "F.2d", "S. Ct."] if rng.random() < 0.4 else None))
@@ -180,9 +184,6 @@ def run_full(ctx, edmap):
                 ctx.count(f"{name} raised {type(ex).__name__} (left to C04)")
                 continue
             wf = all(0 <= c.start <= c.end <= len(d) and d[c.start:c.end] == c.data for c in cands)
-            if not wf:
-                ctx.count(f"{name}: ill-formed candidate (left to C14)")
-                continue
             nt = len(cit_tokens) >= 2
             ctx.case("tokenize-full", (name, d), nt,
                      dict(tokenizer=name, text=d, n_candidates=len(cands), n_special=len(cit_tokens)) if nt and len(ctx.samples) < 8 else None)
@@ -190,6 +191,10 @@ def run_full(ctx, edmap):
             bad = tokutil.monitor_tokens(d, all_tokens, cit_tokens)
             if bad:
                 ctx.violation(None, f"{name}: " + bad, dict(stream="tokenize-full", tokenizer=name, text=d))
+            if not wf:
+                # the theorem's premise cand_wf fails: the monitor above decides; no model comparison
+                ctx.count(f"{name}: ill-formed candidate (token text differs from text[start:end])")
+                continue
             if name == "Tokenizer" and len(cands) > 60:
                 continue
             inp = f"({E.s(d)}, [" + "; ".join(tokutil.tok_term(c, edmap) for c in cands_copy) + "])"
